@@ -18,10 +18,10 @@ PROPS = {
         text="check_allow and login_failed are proved against exact functional contracts over the symbolic throttle tables and a real-valued clock: entries are never purged within PURGE_TIME of the "
              "last recorded failure (L1), each recorded failure increments the count (L2), a locked user or address is refused (L3), and an attempt with both counts at or below threshold is never refused (L4). "
              "The statement over all timed histories follows by induction over calls (DESIGN 2.7). authenticate is proved to return only for an existing account whose *current* password-file hash accepts the password "
-             "(read_users_from_file's merge into USERS is proved to replace every record), and PreAuthenticated.do_login to reach AUTHENTICATED only after check_allow allowed and authenticate returned, to leave the state unchanged on every refusal and to record every wrong-password attempt. Proved since (POP3 path): POP3 PASS checks the throttle before the password, enters TRANSACTION only when the account's current hash accepts the password and the attempt is not throttled, and answers '-ERR invalid username or password' only after recording the failure against user and address.",
+             "(read_users_from_file's merge into USERS is proved to replace every record), and PreAuthenticated.do_login to reach AUTHENTICATED only after check_allow allowed and authenticate returned, to leave the state unchanged on every refusal and to record every wrong-password attempt. Proved since (POP3 path): POP3 PASS checks the throttle before the password, enters TRANSACTION only when the account's current hash accepts the password and the attempt is not throttled, and answers '-ERR invalid username or password' only after recording the failure against user and address. The POP3 front end is gated the same way as the IMAP one: in AUTHORIZATION state POP3SubprocessInterface.message forwards nothing to a user process, the state changes only inside _do_pass, which is handed exactly the password the client sent, and in TRANSACTION state each command is forwarded as one '{<octets>}\\n' frame.",
         note="Not yet under contract: POP3 _do_pass, the IMAPSubprocessInterface.message state gate, hashers.verify_password (A-HASH assumed as the uninterpreted predicate pw_ok), the password-file line parser (assumed to yield the file's records). Trusted: z3, PyVC encoding, time.time() non-decreasing.",
         assumptions=["z3 sound", "PyVC encoding (DESIGN 2.2)", "A-IO: time.time() is non-decreasing", "A-HASH not needed for (c),(d)"],
-        not_decided='the front-end state gate for POP3 commands other than PASS; the hash function itself',
+        not_decided='the hash function itself; the POP3 command tokenizer',
     ),
     "C04": dict(
         design_ref="DESIGN.md 7 C04",
